@@ -253,11 +253,17 @@ def run(shard, ctx):
                     [m.add(a, b) for a, b in lst]
                     hist.append(("add_notes", lst))
                 elif op == 5:
-                    f = lambda: nc.remove_note(n); m.remove_name(n); hist.append(("remove", n))
+                    # by name: remove_note, '-' with the bare name, remove_notes with the bare name
+                    via = rng.choice(["remove", "- name", "remove_notes(name)"])
+                    f = {"remove": lambda: nc.remove_note(n), "- name": lambda: nc - n, "remove_notes(name)": lambda: nc.remove_notes(n)}[via]
+                    m.remove_name(n); hist.append((via, n))
                 elif op == 6:
                     f = lambda: nc.remove_note(n, o); m.remove_name(n, o); hist.append(("remove", n, o))
                 elif op == 7:
-                    f = lambda: nc - Note(n, o); m.remove_pitch(pitch(n, o)); hist.append(("- Note", n, o))
+                    via = rng.choice(["- Note", "remove_notes(Note)", "remove_note(Note)", "- [Note]"])
+                    f = {"- Note": lambda: nc - Note(n, o), "remove_notes(Note)": lambda: nc.remove_notes(Note(n, o)),
+                         "remove_note(Note)": lambda: nc.remove_note(Note(n, o)), "- [Note]": lambda: nc - [Note(n, o)]}[via]
+                    m.remove_pitch(pitch(n, o)); hist.append((via, n, o))
                 elif op == 8:
                     other = NoteContainer([Note(rng.choice(NAMES16), rng.randint(2, 6)) for _ in range(2)])
                     for x in other.notes:
